@@ -28,7 +28,7 @@ OCAML = os.path.join(ROOT, "ocaml")
 HARNESS = os.path.join(ROOT, "harness")
 RUN = os.path.join(ROOT, "run")          # scratch for case files / outputs (gitignored)
 EVID = os.path.join(ROOT, "evidence")
-REPO = "/repo"
+REPO = os.environ.get("VERIF_REPO", "/repo")
 NCPU = min(16, os.cpu_count() or 4)
 GUARD_CFG = "etherparse_verif"
 
@@ -175,6 +175,15 @@ def coq_build(target_vo, timeout=3000):
     with Lock("coq"):
         mk = os.path.join(COQ, "Makefile")
         cp = os.path.join(COQ, "_CoqProject")
+        vs = []
+        for d, _, fs in os.walk(os.path.join(COQ, "theories")):
+            for f in fs:
+                if f.endswith(".v") and not f.startswith("."):
+                    vs.append(os.path.relpath(os.path.join(d, f), COQ))
+        want = "-Q theories EP\n" + "\n".join(sorted(vs)) + "\n"
+        if not os.path.exists(cp) or open(cp).read() != want:
+            with open(cp, "w") as f:
+                f.write(want)
         if (not os.path.exists(mk)) or os.path.getmtime(mk) < os.path.getmtime(cp):
             rc, out = sh("coq_makefile -f _CoqProject -o Makefile", cwd=COQ, timeout=120)
             if rc != 0:
@@ -253,28 +262,43 @@ def ocaml_build(ext_v, mlmod, runner):
 # Rust harness
 # ---------------------------------------------------------------------------
 
-def harness_build(profile="debug", hooks=False):
-    with Lock("cargo"):
+def harness_build(binname, profile="debug", hooks=False):
+    """build harness/src/bin/<binname>.rs against REPO; returns (ok, log, exe).
+    The Cargo manifest is generated into build/h_<key>/ so that the same sources
+    can be built against /repo or a scratch worktree (env VERIF_REPO)."""
+    key = hashlib.sha1(REPO.encode()).hexdigest()[:10]
+    bdir = os.path.join(ROOT, "build", "h_" + key)
+    with Lock("cargo_" + key):
+        os.makedirs(bdir, exist_ok=True)
+        src = os.path.join(HARNESS, "src")
+        bins = sorted(f[:-3] for f in os.listdir(os.path.join(src, "bin")) if f.endswith(".rs"))
+        binsec = "\n".join('[[bin]]\nname = "%s"\npath = "%s/bin/%s.rs"\n' % (b, src, b) for b in bins)
+        toml = open(os.path.join(HARNESS, "Cargo.toml.in")).read()
+        toml = toml.replace("@REPO@", REPO).replace("@SRC@", src).replace("@BINS@", binsec)
+        tp = os.path.join(bdir, "Cargo.toml")
+        if not os.path.exists(tp) or open(tp).read() != toml:
+            with open(tp, "w") as f:
+                f.write(toml)
+        lock_dst = os.path.join(bdir, "Cargo.lock")
         lock_src = os.path.join(REPO, "Cargo.lock")
-        lock_dst = os.path.join(HARNESS, "Cargo.lock")
         if not os.path.exists(lock_dst) and os.path.exists(lock_src):
             sh(["cp", lock_src, lock_dst])
         env = {"CARGO_NET_OFFLINE": "true"}
         tdir = "target_hooks" if hooks else "target"
         if hooks:
             env["RUSTFLAGS"] = "--cfg %s" % GUARD_CFG
-        env["CARGO_TARGET_DIR"] = os.path.join(HARNESS, tdir)
-        cmd = ["cargo", "build", "--offline", "-q"]
+        env["CARGO_TARGET_DIR"] = os.path.join(bdir, tdir)
+        cmd = ["cargo", "build", "--offline", "-q", "--bin", binname]
         if profile == "release":
             cmd.append("--release")
-        rc, out = sh(cmd, cwd=HARNESS, timeout=1800, env=env)
-        exe = os.path.join(HARNESS, tdir, profile, "verif_harness")
+        rc, out = sh(cmd, cwd=bdir, timeout=1800, env=env)
+        exe = os.path.join(bdir, tdir, profile, binname)
         return rc == 0 and os.path.exists(exe), out, exe
 
 
 def repo_state():
-    rc, head = sh("git -C /repo rev-parse HEAD", timeout=30)
-    rc2, diff = sh("git -C /repo status --porcelain -- . ':!target'", timeout=60)
+    rc, head = sh("git -C %s rev-parse HEAD" % REPO, timeout=30)
+    rc2, diff = sh("git -C %s status --porcelain -- . ':!target'" % REPO, timeout=60)
     return head.strip(), hashlib.sha1(diff.encode()).hexdigest()[:12] if diff.strip() else "clean"
 
 
@@ -479,7 +503,7 @@ def run_check(P, argv):
     profiles = ["debug"] + (["release"] if (tier == "thorough" or getattr(P, "RELEASE_ALWAYS", False)) else [])
     exes = {}
     for prof in profiles:
-        ok, out, exe = harness_build(prof, hooks=getattr(P, "HOOKS", False))
+        ok, out, exe = harness_build(P.HARNESS_BIN, prof, hooks=getattr(P, "HOOKS", False))
         if not ok:
             ctx.say("[%s] harness build (%s) FAILED:\n%s" % (P.ID, prof, out[-3000:]))
             problems.append(("harness", "harness does not build against /repo (%s)" % prof, out[-2000:]))
@@ -498,7 +522,7 @@ def run_check(P, argv):
     model_lines = run_sharded([os.path.join(OCAML, "bin", P.RUNNER)], cases, P.ID + "_m") if model_ok else None
     impl = {}
     for prof, exe in exes.items():
-        impl[prof] = run_sharded([exe, P.HARNESS_PROP], cases, P.ID + "_i_" + prof)
+        impl[prof] = run_sharded([exe], cases, P.ID + "_i_" + prof)
 
     # 6: compare -------------------------------------------------------------
     res = P.compare(ctx, cases, impl, model_lines)
